@@ -88,3 +88,25 @@ Print Assumptions C12_single_value.
 Example C12_example : valid_config 1 2048 3 /\
   counts_index_for (config_of 1 2048 3) 2048 = 2048 /\ c_len (config_of 1 2048 3) = 3072.
 Proof. unfold valid_config. repeat split; try reflexivity; vm_compute; congruence. Qed.
+
+(* ---- oracle = theorem: the executable oracles of Model/HdrOk.v, which the
+   correspondence check evaluates on the implementation's observations, accept the
+   model's own observation for EVERY input (proofs in Proofs/HdrOracleProofs.v) ---- *)
+From FV.Model Require Import HdrOk.
+From FV.Proofs Require HdrOracleProofs.
+
+(* 8. one recorded value, any v (negative or above hi included): c12_ok_v is the
+      reflected form of theorems 1-3 and 7 *)
+Theorem C12_oracle_sound : forall lo hi s v,
+  valid_config lo hi s ->
+  c12_ok_v lo hi s v (model_obs_v lo hi s v) = true.
+Proof. exact HdrOracleProofs.c12_oracle_sound. Qed.
+Print Assumptions C12_oracle_sound.
+
+(* 9. any record sequence: c12_ok_seq is the reflected form of theorem 6 *)
+Theorem C12_oracle_seq_sound : forall lo hi s vs,
+  valid_config lo hi s ->
+  let '(nrej, total, bars) := model_obs_seq lo hi s vs in
+  c12_ok_seq (Z.of_nat (length vs)) nrej total bars = true.
+Proof. exact HdrOracleProofs.c12_oracle_seq_sound. Qed.
+Print Assumptions C12_oracle_seq_sound.
